@@ -107,7 +107,10 @@ func (w *World) witnessFor(a *acct, p *transaction.Transaction, wval string) tra
 		}
 		return transaction.Witness{InvocationScript: inv, VerificationScript: src.ver}
 	case "committee":
-		inv := make([]byte, 66*4)
+		var inv []byte
+		for k := 0; k < 4; k++ { // 4 of 6
+			inv = append(inv, sigPush(make([]byte, 64))...)
+		}
 		if p != nil {
 			inv = w.net.CommitteeSigner().SignHashable(uint32(w.net.Magic), p)
 		}
@@ -434,17 +437,25 @@ func (w *World) Build(c Cell, idx int, h uint32, opts ...BuildOpts) (*Built, err
 	sizeRecv := int64(len(encodeTx(probe, spec)))
 	sizeCanon := int64(len(encodeTx(probe, encSpec{enc: "canon", form: c.Form, ruleSigner: -1})))
 	std := true
-	var wcost int64
+	var wcost, rpcCost int64
 	exec := w.bc.GetBaseExecFee()
 	for i, a := range accts {
 		if isStdKind(a.kind) {
 			f, _ := fee.Calculate(exec, probe.Scripts[i].VerificationScript)
 			wcost += f
+			// second source, the logic of the calculatenetworkfee RPC: run the witness (dummy signatures) and take the gas
+			if c.Wval == "ok" {
+				g, _ := w.bc.VerifyWitness(a.h, probe, &probe.Scripts[i], w.bc.GetMaxVerificationGAS())
+				rpcCost += g
+			} else {
+				rpcCost += f
+			}
 			continue
 		}
 		std = false
 		g, _ := w.bc.VerifyWitness(a.h, probe, &probe.Scripts[i], w.bc.GetMaxVerificationGAS())
 		wcost += g
+		rpcCost += g
 	}
 	b.Std = std
 	d := map[string]int64{"m1": -1, "0": 0, "p1": 1}[c.D]
@@ -519,6 +530,8 @@ func (w *World) Build(c Cell, idx int, h uint32, opts ...BuildOpts) (*Built, err
 	}
 	b.Facts = f
 	b.Info["size_recv"], b.Info["size_canon"], b.Info["wcost"], b.Info["attrfee"] = sizeRecv, sizeCanon, wcost, attrFee
+	b.Info["rpc_wcost"], b.Info["attrfee_node"] = rpcCost, w.bc.CalculateAttributesFee(probe)
+	f["feesources"] = rpcCost == wcost && attrFee == w.bc.CalculateAttributesFee(probe)
 	return b, nil
 }
 
